@@ -13,7 +13,8 @@ enum YieldSite : int {
     Y_READ_PRE = 1,  // before istream::read issued by ezc3d
     Y_READ_POST = 2, // after it (bytes are in the scratch buffer, not yet converted)
     Y_OPEN = 3, Y_CLOSE = 4, Y_SYSREAD = 5, Y_SYSWRITE = 6, Y_SEEK = 7,
-    Y_NSITES = 8
+    Y_ALLOC = 8,     // every k-th heap allocation made by library code (plain variant; k is part of the schedule)
+    Y_NSITES = 9
 };
 
 // No-op unless the calling thread belongs to a running scheduled session.
@@ -27,6 +28,7 @@ struct SchedConfig {
     int pct_depth = 2;
     std::vector<uint8_t> replay;     // non-empty: replay these choices verbatim
     uint64_t max_decisions = 200000; // safety cap; beyond it threads run to completion round-robin
+    unsigned alloc_period = 0;       // 0: no yields at allocations; k: the calling thread yields at every k-th allocation it makes
 };
 
 struct SchedResult {
@@ -40,7 +42,12 @@ struct SchedResult {
 // Runs bodies[i] on thread i under the scheduler; returns when all have finished.
 SchedResult run_scheduled(const std::vector<std::function<void()>> &bodies, const SchedConfig &cfg);
 
+// allocator seam -> scheduler: called for every allocation of a scheduled thread that is not inside harness code
+void alloc_yield_hook();
+bool in_harness_scope();
+
 // TSan: hide harness-internal synchronisation / shared harness state from the race detector.
+// (in every variant it also marks "inside harness code": no allocation yields while a harness lock may be held)
 struct HarnessScope {
     HarnessScope();
     ~HarnessScope();
